@@ -6,6 +6,7 @@ package main
 
 import (
 	"fmt"
+	"os"
 	"strings"
 
 	"github.com/nlnwa/whatwg-url/canonicalizer"
@@ -51,7 +52,14 @@ func applySetter(u *url.Url, k int, v string) {
 }
 
 // run executes f under recover; a panic becomes the result token PANIC
+// when VERIF_TRACE names a file, the history executed so far is written there before every operation, so that a crash
+// the runtime cannot recover from (stack overflow, fatal error) or a hang still leaves the failing history behind
+var traceFile = os.Getenv("VERIF_TRACE")
+
 func (h *Hist) run(toks string, f func() string) string {
+	if traceFile != "" {
+		os.WriteFile(traceFile, []byte(strings.Join(append(append([]string{}, h.ops...), toks), " ; ")), 0o644)
+	}
 	res := func() (r string) {
 		defer func() {
 			if p := recover(); p != nil {
